@@ -100,6 +100,75 @@ func LookalikeCases(f func(src string, want *ast.Chain)) {
 	}
 }
 
+// ---------------------------------------------------------------- name resolution order
+
+// NameOrderCases calls f with (tree, verdict) for scripts about the order of definition and use:
+// (a) self-reference  n = E[n], n not defined earlier            -> undefined
+// (b) use before definition  u = E[n]; ...; n = 1 + 1             -> undefined
+// (c) second definition using the first  n = 1 + 1; n = E[n]      -> redefine
+// (d) alias cycles  b = a; a = b                                   -> undefined
+// and the legal look-alikes  n = 1 + 1; y = E[n]                  -> accept
+// with E[.] ranging over every depth/position of an expression and the statement in first, middle and
+// last named position.
+func NameOrderCases(f func(t *ast.Chain, verdict string)) {
+	one := ast.Operand(0)
+	ctx := func(h ast.Expr) []ast.Expr {
+		return []ast.Expr{
+			h,
+			ast.Add{X: h, Y: one}, ast.Add{X: one, Y: h}, ast.Double{X: h}, ast.Shift{X: h, S: 3}, ast.Shift{X: h, S: 0},
+			ast.Shift{X: ast.Add{X: h, Y: one}, S: 2}, ast.Add{X: one, Y: ast.Add{X: one, Y: h}}, ast.Double{X: ast.Double{X: h}},
+			ast.Add{X: ast.Shift{X: ast.Add{X: ast.Identifier("a"), Y: one}, S: 2}, Y: ast.Identifier("a")},
+			ast.Add{X: ast.Add{X: one, Y: ast.Double{X: one}}, Y: ast.Shift{X: h, S: 1}},
+			ast.Add{X: ast.Shift{X: h, S: 2}, Y: ast.Identifier("a")},
+			ast.Add{X: ast.Identifier("a"), Y: ast.Add{X: ast.Shift{X: h, S: 2}, Y: h}},
+		}
+	}
+	usesHole := func(e ast.Expr, n string) bool { return strings.Contains(EncExpr(e), "I"+lib.Bytes([]byte(n))) }
+	stA := ast.Statement{Name: "a", Expr: two}
+	for _, n := range []string{"x", "b", "returnx", "add1", "shl", "_"} {
+		id := ast.Identifier(n)
+		for _, e := range ctx(id) {
+			if !usesHole(e, n) {
+				continue
+			}
+			stN := ast.Statement{Name: id, Expr: e}
+			defN := ast.Statement{Name: id, Expr: two}
+			retN := ast.Statement{Expr: id}
+			retA := ast.Statement{Expr: ast.Add{X: ast.Identifier("a"), Y: one}}
+			mk := func(ss ...ast.Statement) *ast.Chain { return &ast.Chain{Statements: ss} }
+			// (a) self-reference: second, last-named, middle position (a is defined first: the contexts use it)
+			f(mk(stA, stN, retN), "undefined")
+			f(mk(stA, stN, retA), "undefined")
+			f(mk(stA, stN, ast.Statement{Name: "z", Expr: two}, retN), "undefined")
+			f(mk(stA, ast.Statement{Name: "z", Expr: two}, stN, ast.Statement{Expr: ast.Identifier("z")}), "undefined")
+			// (b) use before definition
+			u := ast.Statement{Name: "u", Expr: e}
+			f(mk(stA, u, defN, ast.Statement{Expr: ast.Add{X: ast.Identifier("u"), Y: id}}), "undefined")
+			f(mk(stA, u, ast.Statement{Name: "z", Expr: two}, defN, retN), "undefined")
+			// (c) redefinition whose expression legally uses the first definition
+			f(mk(stA, defN, stN, retN), "redefine")
+			f(mk(stA, defN, ast.Statement{Name: "z", Expr: id}, stN, retA), "redefine")
+			// legal look-alikes
+			f(mk(stA, defN, ast.Statement{Name: "y", Expr: e}, ast.Statement{Expr: ast.Add{X: ast.Identifier("y"), Y: id}}), "accept")
+			f(mk(stA, defN, ast.Statement{Expr: e}), "accept")
+		}
+		// first statement self-referential, no other name around
+		for _, e := range []ast.Expr{id, ast.Add{X: id, Y: one}, ast.Shift{X: id, S: 3}, ast.Double{X: id}, ast.Add{X: one, Y: ast.Add{X: id, Y: id}}} {
+			f(&ast.Chain{Statements: []ast.Statement{{Name: id, Expr: e}, {Expr: id}}}, "undefined")
+			f(&ast.Chain{Statements: []ast.Statement{{Name: id, Expr: e}, {Expr: one}}}, "undefined")
+		}
+	}
+	// (d) alias cycles
+	a, b, c := ast.Identifier("a"), ast.Identifier("b"), ast.Identifier("c")
+	f(&ast.Chain{Statements: []ast.Statement{{Name: b, Expr: a}, {Name: a, Expr: b}, {Expr: a}}}, "undefined")
+	f(&ast.Chain{Statements: []ast.Statement{{Name: a, Expr: b}, {Name: b, Expr: a}, {Expr: ast.Add{X: a, Y: b}}}}, "undefined")
+	f(&ast.Chain{Statements: []ast.Statement{{Name: a, Expr: b}, {Name: b, Expr: c}, {Name: c, Expr: a}, {Expr: c}}}, "undefined")
+	f(&ast.Chain{Statements: []ast.Statement{{Name: "x", Expr: two}, {Name: b, Expr: a}, {Name: a, Expr: ast.Identifier("x")}, {Expr: a}}}, "undefined")
+	// legal alias chains
+	f(&ast.Chain{Statements: []ast.Statement{{Name: a, Expr: two}, {Name: b, Expr: a}, {Name: c, Expr: b}, {Expr: ast.Add{X: c, Y: a}}}}, "accept")
+	f(&ast.Chain{Statements: []ast.Statement{{Name: "x", Expr: two}, {Name: "y", Expr: ast.Add{X: ast.Identifier("x"), Y: ast.Identifier("x")}}, {Expr: ast.Identifier("y")}}}, "accept")
+}
+
 // ---------------------------------------------------------------- neighbourhood of a text
 
 type token struct {
@@ -156,7 +225,51 @@ func perturb(r *lib.Rand, s string) string {
 	if len(ts) == 0 {
 		return "return 1"
 	}
-	switch r.Intn(6) {
+	switch r.Intn(9) {
+	case 6, 7: // name resolution order: self-reference, swapped or duplicated definition lines
+		lines := strings.Split(s, "\n")
+		var defs []int
+		for i, l := range lines {
+			if strings.Contains(l, "=") {
+				defs = append(defs, i)
+			}
+		}
+		if len(defs) == 0 {
+			return s
+		}
+		i := defs[r.Intn(len(defs))]
+		switch r.Intn(3) {
+		case 0: // an identifier of the expression becomes the statement's own name
+			eq := strings.Index(lines[i], "=")
+			name := strings.TrimSpace(lines[i][:eq])
+			lt := tokenize(lines[i][eq+1:])
+			var ids []int
+			for k, t := range lt {
+				if t.kind == 'i' && t.text != "add" && t.text != "shl" && t.text != "dbl" {
+					ids = append(ids, k)
+				}
+			}
+			if len(ids) == 0 || name == "" {
+				lines[i] = lines[i] + " + " + name
+			} else {
+				lt[ids[r.Intn(len(ids))]].text = name
+				lines[i] = lines[i][:eq+1] + join(lt)
+			}
+		case 1: // swap two lines
+			j := r.Intn(len(lines))
+			lines[i], lines[j] = lines[j], lines[i]
+		default: // duplicate a definition just before the end
+			k := len(lines) - 1
+			lines = append(lines[:k:k], append([]string{lines[i]}, lines[k:]...)...)
+		}
+		return strings.Join(lines, "\n")
+	case 8: // rename the defined name of one statement only (uses keep the old name)
+		for i, t := range ts {
+			if t.kind == 'i' && r.Chance(1, 3) {
+				ts[i].text = respell[r.Intn(len(respell))]
+				break
+			}
+		}
 	case 0, 1: // re-spell one identifier consistently
 		var ids []string
 		for _, t := range ts {
@@ -246,7 +359,7 @@ func Neighbours(fn string) func(c string, r *lib.Rand, emit func(string)) {
 			return
 		}
 		switch f[0] {
-		case "load", "parse", "parsex", "fmt":
+		case "load", "loadx", "parse", "parsex", "fmt":
 		default:
 			return
 		}
